@@ -8,7 +8,8 @@ chain/momentum/momentum.go {GetMomentumsByHash, GetMomentumsByHeight, getMomentu
 
 The local chain is abstracted to its frontier height `H` (momentums at heights 1..H, each with its own
 hash). A hash in a request is given as `some h` = "the hash of our momentum at height h" or `none` =
-"a hash we do not hold"; a hash in a reply is given as the height of the momentum it belongs to.
+"a hash we do not hold"; a hash in a reply is given as the height of the momentum it belongs to. (`some h` with h outside 1..H names no
+momentum of ours and behaves like `none` in every handler — see `byHash`.)
 All `uint64` arithmetic is written on `Nat` with explicit `% 2^64` where Go wraps around.
 -/
 namespace ZV.Proto
@@ -47,12 +48,17 @@ def lowerRange (height count : Nat) : Nat × Nat :=
   let frm := if u64 (height + 1) ≤ count then 1 else sub64 (u64 (height + 1)) count
   (frm, u64 (height + 1))
 
+/-- `momentumStore.GetMomentumByHash(hash)`: `some h` stands for the hash of our momentum at height h and is
+    found exactly when that height is held; `none` (a hash of no momentum of ours) is never found. -/
+def byHash (H : Nat) (hash : Option Nat) : Option Nat := hash.bind (byHeight H)
+
 /-- `chainBridge.GetBlockHashesFromHash(hash, amount)` =
-    `GetMomentumsByHash(hash, false, amount)` (dereferences the looked-up momentum without a nil check) and
-    then `momentums[i].Hash` for every entry (nil entry ⇒ panic). Result: heights, ascending. -/
+    `GetMomentumsByHash(hash, false, amount)` — `if momentum == nil { return nil, nil }` since d85e958: a hash
+    the node does not hold yields no momentums, hence an empty list of hashes — and then `momentums[i].Hash`
+    for every entry (nil entry ⇒ panic). Result: heights, ascending. -/
 def hashesFromHash (H : Nat) (hash : Option Nat) (amount : Nat) : R (List Nat) :=
-  match hash with
-  | none => .panic
+  match byHash H hash with
+  | none => .ok []
   | some h =>
     let r := lowerRange h amount
     match momentumsByRange H r.1 r.2 with
@@ -108,22 +114,52 @@ def onGetHashes (H : Nat) (hash : Option Nat) (amount : Nat) : Reply :=
   | .err => .err .other
   | .panic => .panic
 
+/-- `chainBridge.CurrentBlock()`: the momentum at the frontier height — nil only for a chain that holds no
+    momentum at all (H = 0), which `chain.Init` excludes: a node always holds its genesis momentum. -/
+def currentBlock (H : Nat) : Option Nat := byHeight H H
+
 /-- `case GetBlockHashesFromNumberMsg`, first half: `last, err := GetBlockByNumber(Number + Amount - 1)`;
-    if that is nil: `last = CurrentBlock(); Amount = last.Height - Number + 1`. Returns (last.Height, Amount). -/
-def fromNumberLast (H number amount1 : Nat) : Nat × Nat :=
+    if that is nil: `last = CurrentBlock()` and — since 99f2642 —
+    `if available := last.Height - Number + 1; available < Amount { Amount = available }` (uint64 arithmetic,
+    wraps around for Number > last.Height + 1): the already capped amount is only ever reduced.
+    Returns (last.Height, Amount); `none` = `last` is still nil (dereferenced by `last.Height`). -/
+def fromNumberLast (H number amount1 : Nat) : Option (Nat × Nat) :=
   match byHeight H (sub64 (u64 (number + amount1)) 1) with
-  | some l => (l, amount1)
-  | none => (H, u64 (sub64 H number + 1))
+  | some l => some (l, amount1)
+  | none =>
+    match currentBlock H with
+    | none => none
+    | some fr =>
+      let available := u64 (sub64 fr number + 1)
+      some (fr, if available < amount1 then available else amount1)
 
 /-- `case GetBlockHashesFromNumberMsg` -/
 def onGetHashesFromNumber (H number amount : Nat) : Reply :=
-  let p := fromNumberLast H number (capHash amount)
-  if p.1 < number then .hashes []
-  else
-    match hashesFromHash H (some p.1) p.2 with
-    | .ok l => .hashes l.reverse
-    | .err => .err .other
-    | .panic => .panic
+  match fromNumberLast H number (capHash amount) with
+  | none => .panic
+  | some p =>
+    if p.1 < number then .hashes []
+    else
+      match hashesFromHash H (some p.1) p.2 with
+      | .ok l => .hashes l.reverse
+      | .err => .err .other
+      | .panic => .panic
+
+/-
+Where a `.panic` outcome of the two hash handlers can still come from, after d85e958 and 99f2642
+(`C15.handler_total` proves there is nothing else):
+
+ * `currentBlock H = none`, i.e. H = 0: `last.Height` on a nil `CurrentBlock()`. Excluded by `1 ≤ H`; a node
+   cannot be in that state (`chain.Init` inserts the genesis momentum before anything is served).
+ * `momentumsByRange` asked for more than `makesliceMax` entries, or meeting a height that is not held (nil
+   entry, `momentums[i].Hash`). The count that reaches `lowerRange` is always a capped amount (≤ MaxHashFetch
+   = 512, `fromNumberLast_amount_le`) and the height is one of a held momentum (1 ≤ h ≤ H), so the range is
+   [max(1, h+1−count), h+1) ⊆ [1, H] — unless `h + 1` wraps around, which needs h = H = 2^64 − 1: then
+   from = 1, to = 0 and `make(…, 0, to−from)` panics. Excluded by `H + 1 < 2^64`; unreachable for a real chain
+   (2^64 − 1 momentums at one per 10 s are 5.8·10^12 years), but true of the code, so it stays a stated premise.
+
+No premise on the REQUEST is left: every hash (held or not), every number and every amount is covered.
+-/
 
 /-- the gathering loop of `case GetBlocksMsg`: unknown hashes are skipped, stop at MaxBlockFetch blocks;
     returns the blocks and whether the loop left early (cap reached). -/
@@ -195,13 +231,6 @@ def handshake (code size : Nat) (decodes genesisOk networkOk versionOk : Bool) :
   else if !networkOk then some .networkIdMismatch
   else if !versionOk then some .protocolVersionMismatch
   else none
-
-/-- a request body really describes the chain it is sent to: `some h` names a held momentum, numbers are
-    uint64 values -/
-def Body.WF (H : Nat) : Body → Prop
-  | .getHashes hash _ => ∀ h, hash = some h → 1 ≤ h ∧ h ≤ H
-  | .getHashesFromNumber n _ => n < two64
-  | _ => True
 
 /-- number of items a reply puts on the wire -/
 def Reply.count : Reply → Nat
